@@ -289,6 +289,38 @@ func runC05(c *core.Ctx) {
 	c.Rule("R8", "transport.Close reaches the connection on every path; the sender the closer waits for can always make progress (shared with C17-R6, C02-R7)", 2)
 	importObligations(c, runC17, "R8", func(o *core.Obligation) bool { return o.Rule == "R6" })
 	importObligations(c, runC02, "R8", func(o *core.Obligation) bool { return o.Rule == "R7" })
+
+	// ---- R9: closing through a handler context is closing the channel: synchronously, with the same argument
+	c.Rule("R9", "HandlerContext.Close calls Channel.Close itself (not on another goroutine, not deferred) with its own argument", 1)
+	if pr := resolvePipe(p); len(pr.errs) == 0 {
+		c.Instance("R9")
+		if fn := p.DeclMethod(pr.ctxT, "Close"); fn == nil || fn.Blocks == nil {
+			c.Bad("R9", "context-close", "", "HandlerContext.Close implementation not found")
+		} else {
+			c.FuncsSeen[p.QName(fn)] = true
+			isClose := func(x ssa.Instruction) bool {
+				call, ok := x.(*ssa.Call) // a plain call: `go` and `defer` are other instruction kinds
+				if !ok {
+					return false
+				}
+				if !ifaceInvoke(call, r.ChannelIface, "Close") && (r.Closer == nil || call.Call.StaticCallee() != r.Closer) {
+					return false
+				}
+				args := call.Call.Args
+				return len(args) > 0 && len(fn.Params) == 2 && core.Unwrap(args[len(args)-1]) == ssa.Value(fn.Params[1])
+			}
+			bad, path := core.Search(nil, fn.Blocks[0], func(x ssa.Instruction) core.Action {
+				switch {
+				case isClose(x):
+					return core.Barrier
+				case core.IsNormalReturn(x):
+					return core.Target
+				}
+				return core.Continue
+			}, nil)
+			c.Check(bad == nil, "R9", "context-close", p.Pos(fn.Pos()), "closes the channel synchronously with the caller's argument", "HandlerContext.Close can return without having closed the channel itself with its own argument (asynchronous, deferred to another goroutine, or conditional: the handler continues on a channel it believes closed and writes still succeed)", p.PathString(path, bad)...)
+		}
+	}
 }
 
 func runC05R4to6(c *core.Ctx, e *ev) {
